@@ -30,6 +30,7 @@ structure OPObj where
   perInstance : Bool
   checkOnSet : Bool
   allowRefs : Bool
+  readonly : Bool := false
   precedence : Option Int
   boundsTup : Option (Int × Int)
   mslots : List (Slot × CellId × List Int)
@@ -66,7 +67,7 @@ def insertSlot (e : Slot × CellId × List Int) : List (Slot × CellId × List I
 
 def obsP (cells : List (List Int)) (p : PObj) : OPObj :=
   { kind := p.kind, owner := p.owner, default := obsVal cells p.default, instantiate := p.instantiate,
-    constant := p.constant, perInstance := p.perInstance, checkOnSet := p.checkOnSet, allowRefs := p.allowRefs,
+    constant := p.constant, perInstance := p.perInstance, checkOnSet := p.checkOnSet, allowRefs := p.allowRefs, readonly := p.readonly,
     precedence := p.precedence, boundsTup := p.boundsTup,
     mslots := (p.mslots.map fun (s, c) => (s, c, deref cells c)).foldr insertSlot [] }
 
@@ -285,7 +286,7 @@ def newCopiesEqualClass (prev cur : Snap) (edited : InstId → Name → Bool) : 
       match (prev.insts[i]?).bind (fun J => lookupN J.params x), (prev.classes[I.cls]?).bind (lookupN · x) with
       | Option.none, some Q =>
         if P.kind != Q.kind || P.instantiate != Q.instantiate || P.constant != Q.constant || P.perInstance != Q.perInstance
-           || P.checkOnSet != Q.checkOnSet || P.allowRefs != Q.allowRefs || P.precedence != Q.precedence
+           || P.checkOnSet != Q.checkOnSet || P.allowRefs != Q.allowRefs || P.readonly != Q.readonly || P.precedence != Q.precedence
            || P.boundsTup != Q.boundsTup || P.default != Q.default
            || P.mslots.map (fun (s, _, _) => s) != Q.mslots.map (fun (s, _, _) => s) then
           some s!"instance {i}: the new per-instance Parameter p{x} differs from the class Parameter"
@@ -361,6 +362,10 @@ def stepOK (prev cur : Snap) (op : Op) : Option String :=
     -- constant_keeps_construction_object) and its Parameter copies
     if cur.insts.map (fun I => (I.values, I.params)) != prev.insts.map (fun I => (I.values, I.params)) then
       some "a class-level operation changed the own values or Parameter copies of an instance"
+    else if (match op with | .setVal .. => true | _ => false) && cur.err.isSome &&
+        cur.classes.map (·.map fun (y, p) => (y, p.shape)) != prev.classes.map (·.map fun (y, p) => (y, p.shape)) then
+      -- whatever the exception: nothing was stored, a class that only inherits the Parameter goes on inheriting it
+      some "a rejected class-level assignment changed which Parameter objects the classes see"
     else classOpLocal prev cur k x
   | _ =>
     match targetInst op with
@@ -369,6 +374,13 @@ def stepOK (prev cur : Snap) (op : Op) : Option String :=
         (match othersSame prev cur i with
          | some w => some s!"operation on instance {i} {w}"
          | none =>
+           -- a constant (not read-only) parameter accepts the very object it holds — what the attribute read before the
+           -- assignment (small ints: identical iff equal) —, whatever its own Parameter copy remembers as `default`
+           if (match op, cur.err, (prev.insts[i]?).bind (fun I => lookupN I.params x), (prev.insts[i]?).bind (fun I => lookupN I.get x) with
+               | .setVal _ _ (.int n), some "TypeError", some P, some (.int m) => P.constant && !P.readonly && n = m
+               | _, _, _, _ => false) then
+             some "a constant parameter refused the very object it holds (the value the attribute read)"
+           else
            match op, cur.err, (cur.insts[i]?).bind (fun I => lookupN I.values x) with
            | .setVal _ _ lit, none, some v =>
              -- set_instance_keeps_own: the instance now holds what it was given
